@@ -443,6 +443,16 @@ theorem majorOfFormula_not_wf (L : List Leaf) (rows : List Row) (f : Formula) (h
   | none => rfl
   | some v => rw [sem_some_wf L rows f v hs] at h; cases h
 
+/-- the evaluator's result on every strict formula within the stack budget, when every pattern compiles -/
+theorem formulaMajor_strict (cfg : Cfg) (L : List Leaf) (ps : List P) (f : Formula)
+    (hs : Strict f = true) (hd : depth f ≤ cfg.stack) (hL : ∀ (k c : Nat), L[k]? ≠ some (Leaf.reError c)) :
+    formulaMajor L ps cfg.stack f = .ok (majorOfFormula L (ps.map rowOf) f) := by
+  unfold formulaMajor majorOfFormula
+  rw [evaluate_eq_sem L ps hL cfg.stack f hs hd]
+  cases sem L (ps.map rowOf) f with
+  | none => simp [lift, handled]
+  | some v => cases v <;> simp [lift]
+
 /-! ### `update` only reads the rows -/
 
 theorem evaluate_congr (L : List Leaf) (ps ps' : List P) (h : ∀ i, upAt ps i = upAt ps' i) :
